@@ -237,11 +237,19 @@ func toBits(bitDefintions []*meta.Bit, v interface{}) (val.Bits, error) {
 	switch x := v.(type) {
 	case []string: // labels only
 		for _, strBit := range x {
+			if strBit == "" {
+				continue // "a  b" or an empty value: no bit named
+			}
+			declared := false
 			for _, bitDef := range bitDefintions {
 				if strBit == bitDef.Ident() {
+					declared = true
 					result.Labels = append(result.Labels, strBit)
 					result.Positions = result.Positions | (1 << bitDef.Position)
 				}
+			}
+			if !declared {
+				return result, fmt.Errorf("'%s' is not a declared bit", strBit)
 			}
 		}
 		return result, nil
@@ -251,6 +259,9 @@ func toBits(bitDefintions []*meta.Bit, v interface{}) (val.Bits, error) {
 				result.Positions = result.Positions | (1 << bitDef.Position)
 				result.Labels = append(result.Labels, bitDef.Ident())
 			}
+		}
+		if x != result.Positions {
+			return result, fmt.Errorf("%d has bits set that are not declared", x)
 		}
 		return result, nil
 	case string: // treat string as list of bit identifiers separated by space
